@@ -161,7 +161,12 @@ func (c *c08) encodeLength() {
 	name := c08SPNEGO + ".encodeLength"
 	fn := c.P.Func(c08SPNEGO, "", "encodeLength")
 	if fn == nil || fn.Blocks == nil || len(fn.Params) != 1 {
-		c.R.Undecided(rule, name, "-", "anchor function not found")
+		// an unexported helper, not an entry point of the property: without it the length
+		// octets are produced some other way (a library encoder, inline code), which the
+		// framing rule of the token builders reads or reports as not decided
+		c.entity(map[string]int{rule: 3}, func() {
+			c.notDecided(rule, name, "-", "the package has no helper encodeLength(int): the DER length octets of the GSS-API frame are produced elsewhere (see R5.spnego-frame of the token builders)")
+		})
 		return
 	}
 	c.entity(map[string]int{rule: 3}, func() {
